@@ -29,7 +29,7 @@ LEVEL = "fault_enumeration"
 RULE = ("one run = (platform {Ledger, SGX}, command {onboard, unlock, changepin, pubkeys}, device state "
         "{mode bootloader / signer / ui-heartbeat / foreign app, onboarded y/n, echo ok/altered}, operator "
         "script {PIN valid / too short / digits only / non-alphanumeric / none / empty string, on argv or typed after "
-        "0..2 invalid attempts (incl. letters / digits outside ASCII), --anypin, answers yes / no / "
+        "0..2 invalid attempts (incl. letters / digits outside ASCII, the PIN with a stray blank / tab / CR), --anypin, answers yes / no / "
         "other-then-yes / other-then-no / 3..5 non-answers then no or EOF, --nounlock, "
         "--noexec}); enumerated: the full product of the enum dimensions; seeded: PIN strings and "
         "entropy, a failing onboarded query, one link fault addressed by instruction, a blank device "
@@ -110,6 +110,9 @@ def run_one(ch, cfg):
     comes_back_blank = ch.draw(6, "replug-comes-back-blank") == 1
     # seeded only: while the tool waits for the operator at a prompt, the device it examined is
     # unplugged and another one plugged in (SGX: the service is restarted on another state)
+    # seeded only: the PIN typed at the prompt first comes with a stray blank / tab / CR around it (then,
+    # when the tool asks again, without)
+    ws_kind = ch.draw(6, "typed.whitespace")
     swap = ch.draw(6, "device-swapped-at-prompt") == 1 and not link_fault_run and not onb_err
     if swap and ch.draw(4, "swap.any-scenario") != 0:
         # mostly from a healthy scenario of the command, so that the tool gets as far as its prompts
@@ -176,6 +179,9 @@ def run_one(ch, cfg):
         argv += ["-o", "/simfs/attestation-setup.json"]
     if command == "pubkeys":
         argv += ["-o", "/simfs/keys.txt"]
+    if typed and 1 <= ws_kind <= 4 and command in ("onboard", "changepin"):
+        last = typed[-1]
+        typed = typed[:-1] + [[last + " ", " " + last, last + "\t", last + "\r"][ws_kind - 1], last]
     # the PIN the tool will end up using: the first typed entry its validation accepts
     def acceptable(p, anyp):
         if not p.isascii() or not p.isalnum():
@@ -368,7 +374,7 @@ def run_one(ch, cfg):
 
 ENUM_LABELS = ["platform", "command", "mode", "not-onboarded", "echo-bad", "pin-kind", "pin-via-prompt",
                "invalid-attempts-first", "answers", "anypin", "nounlock/noexec", "onboarded-query-fails",
-               "link-fault", "replug-comes-back-blank", "device-swapped-at-prompt"]
+               "link-fault", "replug-comes-back-blank", "typed.whitespace", "device-swapped-at-prompt"]
 
 
 class _Enum:
@@ -376,7 +382,7 @@ class _Enum:
         import itertools
         # the trailing zeros switch the seeded-only dimensions off (failing onboarded query, link
         # fault, blank re-plug, device swap): an enumerated case is exactly the listed scenario
-        self.items = [list(c) + [0, 0, 0, 0] for c in itertools.product(*DIMS)]
+        self.items = [list(c) + [0, 0, 0, 0, 0] for c in itertools.product(*DIMS)]
 
     def __len__(self):
         return len(self.items)
